@@ -25,6 +25,17 @@ ASSUMPTIONS_GLOBAL = [
     'dict/set iteration order is insertion order; no asynchronous exceptions; single thread',
     'spec oracle `accepts` (vf/spec.py) = CPython argument binding on call shapes, validated against really '
     'calling compiled functions (setup and replay)',
+    'COMPILER: an eagerly compiled function stores the annotation object, one compiled with `from __future__ import annotations` the '
+    'expression, which denotes evalin(expression, globals(f)) - an uninterpreted function (evalin_at(..., epoch) after a rebinding of globals)',
+    'INSPECT: inspect.signature(f) returns the def-signature of a function; it follows __wrapped__ up to an object with an explicit '
+    '__signature__ (INSPECT-WRAPPED), returns a stored __signature__ object itself; inspect.unwrap as in CPython 3.12',
+    'external calls (inspect.signature, inspect.getsource, ast.parse, eval, user forgers / hints / descriptors / __bool__) may raise an '
+    'exception whose class is a solver variable over the classes any except clause of sigtools mentions; they have no other effect on '
+    'the objects under inspection',
+    'generators: a generator suspended in try/finally is closed (GeneratorExit at the yield) when the for statement that iterates the '
+    'call result is left - CPython reference counting for an anonymous iterator',
+    'attrs: attr.define / attr.field(default, init, factory) as a model (positional __init__ over the annotated fields)',
+    'units spread over several pool tasks (harness.explore part=(i, n)) are partitions of one decision tree: disjoint, union = the tree',
 ]
 
 
